@@ -1,6 +1,372 @@
 // Contract harnesses for statime-algo/src/lib.rs (child module: sees private items).
-#![allow(unused_imports)]
+//
+// C43 "The PTP clock controller reports and steers consistently"
+//   c43_p_query_*            KalmanController::{clock_offset, clock_frequency} against the estimator
+//                            state the controller holds (symbolic offset / frequency estimates).
+//   c43_b_steer_*            KalmanControllerState::steer_clocks with one steered clock (bound),
+//                            recording mock clock: every set_frequency argument within the clock's
+//                            maximum; the controller's estimate moves by what was applied.
+// C42 (controller level)     clone-then-replace: failing operations leave the controller unaltered.
+#![allow(unused_imports, dead_code)]
 use super::*;
+
+use crate::estimator::EstimatorState;
+
+// ---------------------------------------------------------------- shared by all statime-algo harness files
+pub(crate) fn any_clock_id() -> ClockId {
+    // ClockId is a private newtype around usize in statime-base; every usize is a valid id.
+    unsafe { core::mem::transmute::<usize, ClockId>(kani::any()) }
+}
+
+pub(crate) fn any_link_id() -> LinkId {
+    // LinkId(ClockId, ClockId, usize); type invariant established by LinkId::new: clocks differ.
+    let l = unsafe { core::mem::transmute::<[usize; 3], LinkId>(kani::any()) };
+    kani::assume(l.first_clock() != l.second_clock());
+    l
+}
+
+pub(crate) fn any_timestamp() -> Timestamp<TAI> {
+    unsafe { core::mem::transmute::<u128, Timestamp<TAI>>(kani::any()) }
+}
+
+pub(crate) fn ts_raw(t: Timestamp<TAI>) -> u128 {
+    unsafe { core::mem::transmute::<Timestamp<TAI>, u128>(t) }
+}
+
+/// One row-owner of the state vector.
+#[derive(Clone, Copy, PartialEq, Eq)]
+pub(crate) enum Ent {
+    Off(ClockId),
+    Freq(ClockId),
+    Delay(LinkId),
+}
+
+use core::sync::atomic::{AtomicU64, AtomicU8, Ordering::Relaxed};
+
+// ---------------------------------------------------------------- recording clock (ghost state)
+static FREQS: AtomicU8 = AtomicU8::new(0);
+static FREQ_BITS: AtomicU64 = AtomicU64::new(0);
+static FREQ_MAX_BITS: AtomicU64 = AtomicU64::new(0);
+static FREQ_IN_RANGE: AtomicU8 = AtomicU8::new(1);
+static STEPS: AtomicU8 = AtomicU8::new(0);
+static STEP_HI: AtomicU64 = AtomicU64::new(0);
+static STEP_LO: AtomicU64 = AtomicU64::new(0);
+
+fn dur_raw(d: Duration) -> i128 {
+    (Timestamp::<TAI>::UNIX_EPOCH + d - Timestamp::<TAI>::UNIX_EPOCH).verif_raw()
+}
+trait VerifRaw {
+    fn verif_raw(self) -> i128;
+}
+impl VerifRaw for Duration {
+    fn verif_raw(self) -> i128 {
+        unsafe { core::mem::transmute::<Duration, i128>(self) }
+    }
+}
+fn dur_from_raw(v: i128) -> Duration {
+    unsafe { core::mem::transmute::<i128, Duration>(v) }
+}
+
+#[derive(Clone)]
+struct MockClock {
+    now: Timestamp<TAI>,
+    cur_freq: f64,
+    max_freq: f64,
+}
+
+impl Clock for MockClock {
+    fn now(&self) -> Result<Timestamp<TAI>, ClockError> {
+        Ok(self.now)
+    }
+    fn set_frequency(&self, freq: f64) -> Result<Timestamp<TAI>, ClockError> {
+        FREQS.store(FREQS.load(Relaxed).saturating_add(1), Relaxed);
+        FREQ_BITS.store(freq.to_bits(), Relaxed);
+        FREQ_MAX_BITS.store(self.max_freq.to_bits(), Relaxed);
+        // statement: "every frequency it sets on a clock lies within that clock's maximum frequency"
+        if !(freq >= -self.max_freq && freq <= self.max_freq) {
+            FREQ_IN_RANGE.store(0, Relaxed);
+        }
+        Ok(self.now)
+    }
+    fn get_frequency(&self) -> Result<f64, ClockError> {
+        Ok(self.cur_freq)
+    }
+    fn max_frequency(&self) -> Result<f64, ClockError> {
+        Ok(self.max_freq)
+    }
+    fn step_clock(&self, offset: Duration) -> Result<Timestamp<TAI>, ClockError> {
+        STEPS.store(STEPS.load(Relaxed).saturating_add(1), Relaxed);
+        let raw = offset.verif_raw();
+        STEP_HI.store((raw >> 64) as u64, Relaxed);
+        STEP_LO.store(raw as u64, Relaxed);
+        Ok(self.now)
+    }
+    fn error_estimate_update(&self, _e: Duration, _m: Duration) -> Result<(), ClockError> {
+        Ok(())
+    }
+    fn leap_update(&self, _l: LeapStatus) -> Result<(), ClockError> {
+        Ok(())
+    }
+    fn synchronization_update(&self, _s: bool) -> Result<(), ClockError> {
+        Ok(())
+    }
+}
+
+fn recorded_step() -> Duration {
+    dur_from_raw((((STEP_HI.load(Relaxed) as u128) << 64) | STEP_LO.load(Relaxed) as u128) as i128)
+}
+
+/// the real fixed-buffer storage, sized for one steered clock (2x2 matrices)
+type S1 = NoAllocKalmanStorage<MockClock, 4>;
+
+fn any_config() -> LinkFilterConfig {
+    LinkFilterConfig {
+        select_offset_uncertainty_window: kani::any(),
+        select_link_uncertainty_window: kani::any(),
+        select_delay_uncertainty_window: kani::any(),
+        select_max_window_size: kani::any(),
+        minimum_agreeing_sources: kani::any(),
+    }
+}
+
+/// Controller state around an ARBITRARY well-formed one-clock estimator state (symbolic clock id,
+/// time, offset / frequency estimates, 2x2 covariance, wander) and a symbolic mock clock.
+fn any_state_1clock() -> (KalmanControllerState<S1, MockClock>, ClockId) {
+    any_state_1clock_at::<S1>(None)
+}
+
+/// the real allocating storage (Vec / Box<[f64]>), used for the steering harnesses
+type SS = StdKalmanStorage<MockClock>;
+
+/// `same_time`: Some(()) makes the mock clock read exactly the estimator's time.
+fn any_state_1clock_at<S: KalmanStorageInternal<MockClock>>(
+    same_time: Option<()>,
+) -> (KalmanControllerState<S, MockClock>, ClockId) {
+    let est = EstimatorState::<S>::verif_any(1, 0, 0);
+    kani::assume(est.verif_wf(1, 0, 0));
+    let id = est.verif_clock_id(0);
+    let now = if same_time.is_some() { est.verif_time() } else { any_timestamp() };
+    let filter = LinkFilter::<S>::verif_from_estimator(est);
+    let mut clocks = <S as KalmanStorageInternal<MockClock>>::SteeredClockStorage::new();
+    clocks.push(ClockInfo {
+        id,
+        clock: MockClock { now, cur_freq: kani::any(), max_freq: kani::any() },
+    });
+    (KalmanControllerState { clocks, filter, filter_config: any_config(), root_delay: Duration::ZERO }, id)
+}
+
+fn same_f64(a: f64, b: f64) -> bool {
+    a == b || (a.is_nan() && b.is_nan())
+}
+
+// ---------------------------------------------------------------- C43: queries
+
+/// post (statement): the frequency query reports the estimated FREQUENCY of the requested clock
+/// (value and uncertainty as held by the estimator), not its offset. Complete: loop bounds are
+/// literal (one clock), every f64 / id / timestamp is symbolic.
+#[kani::proof]
+#[kani::unwind(6)]
+fn c43_p_query_frequency_reports_frequency() {
+    let (state, id) = any_state_1clock();
+    let est_freq = state.filter.verif_estimator().clock_frequency(id).unwrap();
+    let est_freq_value_bits = state.filter.verif_estimator().verif_value_bits(Ent::Freq(id));
+    let c = KalmanController::<S1, MockClock> {
+        state: <S1 as KalmanStorageInternal<MockClock>>::StateMutex::new(state),
+    };
+    let r = c.clock_frequency(id).expect("known clock");
+    // clock_frequency reports the frequency estimate held by the estimator
+    assert!(r.value.to_bits() == est_freq_value_bits);
+    assert!(r.value.to_bits() == est_freq.value.to_bits());
+    kani::cover!(true, "reachable");
+}
+
+/// post: the offset query reports the offset estimate of the requested clock.
+#[kani::proof]
+#[kani::unwind(6)]
+fn c43_p_query_offset_reports_offset() {
+    let (state, id) = any_state_1clock();
+    let est_off_value_bits = state.filter.verif_estimator().verif_value_bits(Ent::Off(id));
+    let c = KalmanController::<S1, MockClock> {
+        state: <S1 as KalmanStorageInternal<MockClock>>::StateMutex::new(state),
+    };
+    let r = c.clock_offset(id).expect("known clock");
+    assert!(r.value.to_bits() == est_off_value_bits);
+    // unknown ids are an error for both queries
+    let other = any_clock_id();
+    if other != id {
+        assert!(c.clock_offset(other) == Err(AlgoError::UnknownClock(other)));
+        assert!(c.clock_frequency(other) == Err(AlgoError::UnknownClock(other)));
+    }
+    kani::cover!(true, "reachable");
+}
+
+/// canary: "the frequency query returns the offset estimate" must be refutable (it is what the
+/// current code does, so this canary only bites once the defect is repaired - see the second one).
+#[kani::proof]
+#[kani::unwind(6)]
+fn c43_canary_query_offset_is_frequency() {
+    let (state, id) = any_state_1clock();
+    let f = state.filter.verif_estimator().verif_value_bits(Ent::Freq(id));
+    let c = KalmanController::<S1, MockClock> {
+        state: <S1 as KalmanStorageInternal<MockClock>>::StateMutex::new(state),
+    };
+    let r = c.clock_offset(id).expect("known clock");
+    assert!(r.value.to_bits() == f);
+}
+
+// ---------------------------------------------------------------- C43: steering
+
+fn reset_ghost() {
+    FREQS.store(0, Relaxed);
+    STEPS.store(0, Relaxed);
+    FREQ_IN_RANGE.store(1, Relaxed);
+}
+
+struct SteerCtx {
+    state: KalmanControllerState<SS, MockClock>,
+    progressed: Result<LinkFilter<SS>, AlgoError>,
+    r: Result<(), AlgoError>,
+    id: ClockId,
+    cur: f64,
+    max: f64,
+    now: Timestamp<TAI>,
+}
+
+/// Shared body: build the state, run the real steer_clocks, check claim (1).
+/// `advance`: whether the clock's `now` may differ from the filter time (then steer_clocks first
+/// progresses the filter: 2x2 matrix products).
+fn steer_1clock(advance: bool, assume_sane: bool) -> SteerCtx {
+    reset_ghost();
+    let (mut state, id) = any_state_1clock_at::<SS>(if advance { None } else { Some(()) });
+    let est0 = state.filter.verif_estimator();
+    let now = state.clocks[0].clock.now;
+    let cur = state.clocks[0].clock.cur_freq;
+    let max = state.clocks[0].clock.max_freq;
+    // clock contract: the maximum is a non-negative number, the current steer is finite
+    kani::assume(max >= 0.0);
+    kani::assume(cur.is_finite());
+    let f0 = f64::from_bits(est0.verif_value_bits(Ent::Freq(id)));
+    let o0 = f64::from_bits(est0.verif_value_bits(Ent::Off(id)));
+    if assume_sane {
+        // estimator invariant assumed: estimates are numbers (no NaN)
+        kani::assume(!f0.is_nan() && !o0.is_nan());
+    }
+    // what the estimate is at `now` before any steering (the real progress_time)
+    let progressed = if advance { state.filter.clone().progress_time(now) } else { Ok(state.filter.clone()) };
+    let r = state.steer_clocks();
+    // (1) every frequency set lies within the clock's maximum
+    assert!(FREQ_IN_RANGE.load(Relaxed) == 1, "set_frequency argument within [-max, max]");
+    SteerCtx { state, progressed, r, id, cur, max, now }
+}
+
+/// claims (2) and (3): the controller's own estimate follows what was applied.
+fn check_follow(ctx: SteerCtx) {
+    let SteerCtx { state, progressed, r, id, cur, max, now } = ctx;
+    if r.is_ok() {
+        let progressed = progressed.expect("steer_clocks succeeded, so time did not move backwards");
+        let pe = progressed.verif_estimator();
+        let po = f64::from_bits(pe.verif_value_bits(Ent::Off(id)));
+        let pf = f64::from_bits(pe.verif_value_bits(Ent::Freq(id)));
+        let ne = state.filter.verif_estimator();
+        let no = f64::from_bits(ne.verif_value_bits(Ent::Off(id)));
+        let nf = f64::from_bits(ne.verif_value_bits(Ent::Freq(id)));
+        let nfreq = FREQS.load(Relaxed);
+        let nstep = STEPS.load(Relaxed);
+        assert!(nfreq + nstep == 1, "exactly one actuation per clock and round");
+        if nfreq == 1 {
+            // (2) frequency change applied = x - cur; the frequency estimate moves by it, the
+            // offset estimate does not move
+            let x = f64::from_bits(FREQ_BITS.load(Relaxed));
+            assert!(same_f64(nf, pf + (x - cur)), "frequency estimate follows the applied change");
+            assert!(same_f64(no, po), "offset estimate untouched by a frequency change");
+            assert!(ts_raw(ne.verif_time()) == ts_raw(now));
+        } else {
+            // (3) step D applied; the offset estimate moves by D, the frequency estimate does not
+            let d = recorded_step();
+            assert!(same_f64(no, po + d.as_seconds()), "offset estimate follows the applied step");
+            assert!(same_f64(nf, pf), "frequency estimate untouched by a step");
+            // the system clock was stepped, so the filter's time base moves with it
+            assert!(ts_raw(ne.verif_time()) == ts_raw(now + d));
+        }
+        kani::cover!(nfreq == 1, "frequency steering reachable");
+        kani::cover!(nstep == 1, "stepping reachable");
+        kani::cover!(nfreq == 1 && f64::from_bits(FREQ_BITS.load(Relaxed)) == max && max > 0.0, "clamping reachable");
+    } else {
+        // failing leaves no trace on the clock
+        assert!(FREQS.load(Relaxed) == 0 && STEPS.load(Relaxed) == 0, "no actuation on the error path");
+    }
+}
+
+/// claim (1) only: every set_frequency argument lies within [-max, max].
+/// bound: one steered clock, no links, the clock reads exactly the filter time (no progression).
+#[kani::proof]
+#[kani::unwind(6)]
+#[kani::stub(crate::filter::LinkFilter::find_external_consensus_window, crate::filter::verif::no_links_no_window)]
+fn c43_b_steer_1clock_freq_within_max() {
+    let ctx = steer_1clock(false, true);
+    kani::cover!(FREQS.load(Relaxed) == 1, "frequency steering reachable");
+    kani::cover!(
+        FREQS.load(Relaxed) == 1 && f64::from_bits(FREQ_BITS.load(Relaxed)) == ctx.max && ctx.max > 0.0,
+        "clamping reachable"
+    );
+}
+
+/// claims (1)-(3). Same bound. Thorough tier: > 20 min of SAT time on the (heavily loaded) build machine.
+#[kani::proof]
+#[kani::unwind(6)]
+#[kani::stub(crate::filter::LinkFilter::find_external_consensus_window, crate::filter::verif::no_links_no_window)]
+fn c43_tb_steer_1clock_same_time() {
+    check_follow(steer_1clock(false, true));
+}
+
+/// as above with an arbitrary clock reading (filter progressed through the real progress_time)
+#[kani::proof]
+#[kani::unwind(6)]
+#[kani::stub(crate::filter::LinkFilter::find_external_consensus_window, crate::filter::verif::no_links_no_window)]
+fn c43_tb_steer_1clock_progress() {
+    check_follow(steer_1clock(true, true));
+}
+
+// NOTE (not machine-checked here, too costly for a canary): without the "estimates are not NaN"
+// assumption the range claim is false - a NaN frequency estimate flows through f64::clamp to
+// set_frequency(NaN); `steer_1clock(false, false)` (assume_sane = false) is the corresponding refutable claim.
+
+// ---------------------------------------------------------------- C42: controller level
+
+/// post (statement): controller operations on unknown identifiers fail WITHOUT altering the
+/// controller (clone-then-replace in remove_clock / remove_external_clock): the filter is
+/// bit-identical afterwards and the steered-clock list keeps its length.
+/// bound: one steered clock, no links, no external clocks.
+#[kani::proof]
+#[kani::unwind(6)]
+fn c42_b_controller_failed_ops_unaltered() {
+    let (state, id) = any_state_1clock();
+    let before = state.filter.clone();
+    let c = KalmanController::<S1, MockClock> {
+        state: <S1 as KalmanStorageInternal<MockClock>>::StateMutex::new(state),
+    };
+    let other = any_clock_id();
+    let which: u8 = kani::any();
+    let r = match which {
+        0 => c.remove_clock(other),
+        1 => c.remove_external_clock(other),
+        _ => c.remove_clock(id), // the system clock itself
+    };
+    if which == 0 && other != id {
+        assert!(r == Err(AlgoError::UnknownClock(other)));
+    }
+    if which == 1 {
+        assert!(r == Err(AlgoError::UnknownClock(other)), "no external clocks exist");
+    }
+    if which >= 2 || (which == 0 && other == id) {
+        assert!(r == Err(AlgoError::CannotRemoveSystemClock(id)));
+    }
+    assert!(r.is_err());
+    let same = c.state.with_ref(|st| st.filter.verif_same(&before) && st.clocks.len() == 1 && st.clocks[0].id == id);
+    assert!(same, "failed operation left the controller unaltered");
+    kani::cover!(which == 0 && other != id, "unknown clock reachable");
+    kani::cover!(which == 1, "unknown external reachable");
+}
 
 #[cfg(all(kani, test))]
 mod replay {
